@@ -39,8 +39,8 @@ def c01_shards(tier):
     for (tn, t, alpha), (cap, shared), (lines, D, mn) in itertools.product(tables, caps, variants):
         if cap > 7 and D > 1:
             continue    # two deviations inside a 16-byte argument buffer: >10^8 states per table, covered at caps 6 and 7
-        sh.append(mcx("lines-%s-cap%d-sh%d-l%dd%d" % (tn, cap, shared, lines, D), prop="C01", table=t, cap=cap, shared=shared, name_alpha=alpha, args_alpha="1A",
-                      max_name=mn, max_args=(cap + 1) if cap <= 7 else 3, D=D, dev=DEV, lines=lines, crlf=1, blank=1, lower=0,
+        sh.append(mcx("lines-%s-cap%d-sh%d-l%dd%d" % (tn, cap, shared, lines, D), prop="C01", table=t, cap=cap, shared=shared, name_alpha=alpha, args_alpha="1" if (quick and tn == "impl") else "1A",
+                      max_name=mn, max_args=(cap if quick else cap + 1) if cap <= 7 else 3, D=D, dev=DEV, lines=lines, crlf=1, blank=1, lower=0,
                       refuse_read=1, refuse_write=1, codes_W="OK,ERROR,NEXT,HOLD", codes_R="OK,DATA_OK,DATA_NEXT,ERROR", codes_U="OK,ERROR,LIST,HOLD",
                       codes_T="OK,DATA_OK,ERROR", max_inv=1, act="hold", mon="C01"))
     # unrestricted short byte strings
@@ -189,7 +189,7 @@ def c13_shards(tier, prop="C13", mon="C13"):
     for ring in (1, 2, 3):
         sh.append(mcx("queue-bounded-r%d" % ring, ring=ring, prop=prop, table=T_Q, cap=12, shared=ring % 2, name_alpha="HK", max_name=1, args_alpha="1", max_args=0, suffix_mask=5, lines=1,
                       refuse_read=1, refuse_write=1, codes_W="HOLD,OK", codes_U="OK", ecodes_R="OK,DATA_OK,DATA_NEXT,HEXIT_OK,HEXIT_ERR", ecodes_T="OK,HEXIT_ERR", max_inv=1, tok=1,
-                      ev=ev4, act="trigger,hold,queries", trig_budget=ring + 2, mon=mon))
+                      ev=ev4 if ring < 3 else "+a:R,+b:R,+d:R", act="trigger,hold,queries", trig_budget=3, mon=mon))
     # (ii) with command traffic (a held command and an answering one)
     for ring in (1, 2, 3):
         for shared in (0, 1):
